@@ -14,6 +14,7 @@ mod gen;
 mod machine;
 mod mes;
 mod rng;
+mod runloop;
 mod stepped;
 mod sweep;
 
@@ -69,6 +70,8 @@ fn main() {
         "mes-cases" => mes::run_mes(&args),
         "cost-table" => cost::run_cost(&args),
         "elf-load" => elfgen::run_elf_load(&args),
+        "run-program" => runloop::run_run_program(&args),
+        "sock-replay" => runloop::run_sock_replay(&args),
         "irq-replay" => stepped::run_irq_replay(&args),
         "acc-cases" => stepped::run_acc_cases(&args),
         "callret" => stepped::run_callret(&args),
